@@ -201,6 +201,10 @@ def run_case(case, ctx):
         st.count("replace_calls_with_positional_arguments")
     obs = replcase.observe_replace(S, P, R, case["s"], _positional=positional, atol=atol, replace_all=case["replace_all"], **kw)
     st.count("replace_calls")
+    for msg in obs.get("plumbing") or []:
+        ctx.fail(msg, key="option_plumbing", witness={"case": {k: case.get(k) for k in ("cell", "pattern", "repl", "atol")}})
+    if obs.get("plumbing") is not None and obs["found"] is not None:
+        st.count("replace_calls_whose_inner_search_options_were_observed")
     if f < 1.0 and obs["selected"] is not None and len(obs["selected"]) >= 2:
         st.count("partial_replacements_with_two_or_more_matches")
         if list(obs["selected"]) != sorted(obs["selected"]):
